@@ -1,7 +1,7 @@
 (* probe: Phase + Phase on the bit-exact model keeps two-double precision (C07_add) *)
 From Coq Require Import ZArith Reals Psatz Floats.
 From Flocq Require Import Core BinarySingleNaN PrimFloat.
-From PB Require Import Proofs.TwoSumExact Model.Phase2 Proofs.Floor Proofs.DayFrac Proofs.DayFrac3.
+From PB Require Import Proofs.TwoSumExact Model.Phase2 Proofs.Floor Proofs.DayFrac Proofs.DayFrac3 Proofs.DayFracTail Proofs.DayFracFold.
 Open Scope R_scope.
 
 Notation fexp := (FLT_exp (-1074) 53).
@@ -18,7 +18,7 @@ Theorem phase_add_sound (i1 f1 i2 f2 : PrimFloat.float) (k1 k2 : Z) :
   let '(d, f) := phase_add i1 f1 i2 f2 in
   fin d /\ fin f /\ (exists k : Z, R_of d = IZR k) /\
   Rabs (R_of d + R_of f - ((R_of i1 + R_of f1) + (R_of i2 + R_of f2))) <= bpow radix2 (-52) /\
-  Rabs (R_of f) <= / 2 + bpow radix2 (-50).
+  Rabs (R_of f) <= / 2.
 Proof.
   intros Fi1 Ff1 Fi2 Ff2 E1 E2 K1 K2 B1 B2. unfold phase_add.
   assert (P51 : bpow radix2 52 = IZR (2 ^ 52)) by (simpl; lra).
